@@ -294,6 +294,7 @@ fn abuild_inner<'a>(
     Box::pin(async move {
         match cfg {
             Cfg::Mem | Cfg::Phys => leaf(cfg, scratch, plan),
+            Cfg::Emb => Err("the async port has no embedded filesystem".to_string()),
             Cfg::Alt(inner, depth) => {
                 let under = abuild_inner(inner, scratch, plan).await?;
                 let mut p = under.clone();
